@@ -13,8 +13,9 @@ SCOPE = [("manager.collapse", 120, 50, {"tz": z}) for z in ZONES_QUICK] + \
         [("manager.fill", 60, 50, {"tz": "Asia/Kolkata"}), ("manager.fill", 60, 50, {"tz": "America/New_York"})] + \
         [("manager.collapse", 120, 50, {"tz": z, "thorough_only": True}) for z in ZONES_ALL[3:]]
 ORACLE_RULE = ("C18: the C03 scenarios on the real CandleManager in worker processes whose TZ is set to each zone (tzset), including streams placed "
-               "on DST transition days of that zone, compared exactly with the zone-free independent resampler")
-ASSUMPTIONS = ["the tz database and datetime's own fold/gap rules are runtime and trusted", "naive timestamps at second resolution"]
+               "on DST transition days of that zone (optionally with sub-second stamps, dict / list encoded chunks and a lifespan), compared exactly with the zone-free independent resampler")
+ASSUMPTIONS = ["the tz database and datetime's own fold/gap rules are runtime and trusted",
+               "naive timestamps; with sub-second parts (which the library drops at places of its own choosing - C03's domain is whole seconds) the run under a zone is compared with the same run under UTC instead of with the resampler"]
 PARTIAL = 'the Lean model has no zone parameter; that the code consults no zone is established by the tz correspondence (sampled), not by a theorem'
 TRUSTED_EXTRA = ["C18: zone independence of the code is tied by running the correspondence under several TZ settings (sampled)"]
 
@@ -27,21 +28,51 @@ TRANSITIONS = {
 }
 
 
+def _check(scn, tz):
+    """whole-second stamps: against the zone-free independent resampler.  Sub-second stamps (which the library drops at places of
+    its own choosing): the same run under this zone and under UTC must give identical candles - the property itself."""
+    if not scn.get("subsec"):
+        return om.check_scn(scn)
+    here = om.collect_scn(scn)
+    old = os.environ.get("TZ")
+    os.environ["TZ"] = "UTC"
+    time.tzset()
+    try:
+        utc = om.collect_scn(scn)
+    finally:
+        if old is None:
+            os.environ.pop("TZ", None)
+        else:
+            os.environ["TZ"] = old
+        time.tzset()
+    if here != utc:
+        j = next((i for i, (a, b) in enumerate(zip(here, utc)) if a != b), min(len(here), len(utc)))
+        return {"clause": "zone-vs-utc", "step": j, "observed": str(here[j] if j < len(here) else None)[:300],
+                "expected": str(utc[j] if j < len(utc) else None)[:300]}
+    return None
+
+
 def _case(rng, idx, params):
-    scn, meta = om.gen_scn(rng, tf=True, fill=rng.random() < 0.4, size=params.get("size", 50))
+    scn, meta = om.gen_scn(rng, tf=True, fill=rng.random() < 0.4, life=rng.random() < 0.3, size=params.get("size", 50))
     tz = params["tz"]
+    # everything on the way from the caller's naive stamps to the held buckets must be zone-free: sub-second parts (dropped by
+    # the library), dict / list encodings of appended chunks, and lifespan trimming
+    if rng.random() < 0.4:
+        scn["subsec"] = [rng.choice([0, 1, 250000, 999999]) for _ in range(7)]
+    scn["enc"] = rng.choice(["candle", "candle", "dict", "list"])
+    meta.update({"subsec": bool(scn.get("subsec")), "enc": scn["enc"], "life": scn.get("life") is not None})
     if tz in TRANSITIONS and rng.random() < 0.6 and scn["stream"]:
         span = scn["stream"][-1][0] - scn["stream"][0][0]
         base = rng.choice(TRANSITIONS[tz]) + 7200 - rng.randint(0, max(span, 7200))
         shift = base - scn["stream"][0][0]
         scn["stream"] = [(t + shift,) + tuple(r) for (t, *r) in scn["stream"]]
         meta["transition_day"] = True
-    bad = om.check_scn(scn)
+    bad = _check(scn, tz)
     viol = None
     if bad:
-        small = cm.shrink_stream(scn, lambda s: om.check_scn(om._fix_sched(s)) is not None)
+        small = cm.shrink_stream(scn, lambda s: _check(om._fix_sched(s), tz) is not None)
         small = om._fix_sched(small)
-        bad2 = om.check_scn(small) or bad
+        bad2 = _check(small, tz) or bad
         viol = {"scenario": small, "tz": tz, **bad2, "signature": f"{ID}:{tz}:{bad2.get('clause')}"}
     meta["tz"] = tz
     return {"nontrivial": len(scn["stream"]) >= 2, "key": hash((tz, str(scn))), "violation": viol, "meta": meta,
@@ -62,7 +93,7 @@ def replay(witness):
         os.environ["TZ"] = tz
         time.tzset()
     try:
-        bad = om.check_scn(witness["scenario"])
+        bad = _check(witness["scenario"], tz)
     finally:
         if old is not None:
             os.environ["TZ"] = old
